@@ -33,7 +33,7 @@ RULES = {
     "C48.stall_unknown": "an unknown descriptor is answered with a stall strobe and no data; a known one is never stalled",
 }
 PROBES = ["setup_reported", "setup_bad_crc", "setup_aborted", "setup_short", "setup_long", "setup_len4", "setup_len5to7",
-          "setup_no_flag_8bytes", "setup_after_malformed", "setup_word_gap", "setup_back_to_back",
+          "setup_no_flag_8bytes", "setup_after_malformed", "setup_word_gap", "setup_back_to_back", "setup_bad_strobe_with_word",
           "desc_requests", "desc_truncated_by_wlength", "desc_wlength_exceeds", "desc_unknown", "desc_ready_stall",
           "desc_partial_last_word", "desc_wlength_not_multiple_of_4"]
 META = {
@@ -84,6 +84,10 @@ def _gen_setup(rng, tier):
         if verdict == "abort":
             op["abort_after_words"] = rng.randint(1, nwords) if nwords else 0
             op["strobe_delay"] = rng.randint(0, 3)
+            if op["abort_after_words"] and rng.random() < 0.4:
+                # what the real DataPacketReceiver does on a framing error: rx_bad in the very cycle it still presents the
+                # offending word as valid
+                op["bad_with_word"] = True
         ops.append(op)
     return {"engine": ENGINE, "config": {"dut": "setup"}, "ops": ops}
 
@@ -190,13 +194,18 @@ def _setup_script(ops):
             emit(valid=mask, first=int(wi == 0), last=int(remaining <= 4), data=w)
             remaining -= 4
             pk["words_sent"] += 1
-        for _ in range(op["strobe_delay"]):
-            emit()
-        pk["strobe_cycle"] = len(rows)
-        if op["verdict"] == "good":
-            emit(good=1)
+        if op.get("bad_with_word") and op["verdict"] == "abort" and pk["words_sent"]:
+            rows[-1]["bad"] = 1                       # the strobe coincides with the last word presented
+            pk["strobe_cycle"] = len(rows) - 1
+            pk["bad_with_word"] = True
         else:
-            emit(bad=1)
+            for _ in range(op["strobe_delay"]):
+                emit()
+            pk["strobe_cycle"] = len(rows)
+            if op["verdict"] == "good":
+                emit(good=1)
+            else:
+                emit(bad=1)
         for _ in range(op["idle_after"]):
             emit()
         packets.append(pk)
@@ -251,6 +260,8 @@ def _run_setup(scn):
             probes["setup_bad_crc"] += 1
         if op["verdict"] == "abort":
             probes["setup_aborted"] += 1
+            if pk.get("bad_with_word"):
+                probes["setup_bad_strobe_with_word"] += 1
         if op["setup"] and len(data) < 8:
             probes["setup_short"] += 1
         if op["setup"] and len(data) > 8:
